@@ -60,6 +60,27 @@ def make_cases(rng, order, tier, maxl):
         cases.append({"id": "d%d_thr_%d" % (order, k), "extra": {"order": order, "geom": "threshold"},
                       "shells": [gen.rand_shell(rng, LA, A), gen.rand_shell(rng, LB, B)],
                       "ecps": [gen.rand_ecp(rng, rng.randint(0, 2), C, nper=(1, 1))]})
+    # displacements from the ECP centre whose signed components cancel exactly (dyadic coordinates): the coincidence tests
+    # are norms of the displacement, and a norm must not vanish on the plane x + y + z = 0 or when two components are opposite
+    for k in range(9 if tier == "quick" else 45):
+        LA, LB = rng.randint(0, lim), rng.randint(0, lim)
+        C = [rng.randint(-64, 64) / 64.0 for _ in range(3)]
+        def cancel():
+            if rng.randint(0, 1):
+                u = rng.randint(16, 160) / 64.0; v = rng.randint(16, 160) / 64.0
+                dd = [u, v, -(u + v)]
+            else:
+                u = rng.randint(16, 160) / 64.0
+                dd = [u, -u, 0.0]
+            rng.shuffle(dd)
+            sgn = rng.choice([1, -1])
+            return [c + sgn * x for c, x in zip(C, dd)]
+        which = ["A", "B", "AB"][k % 3]
+        A = cancel() if which in ("A", "AB") else [c + x for c, x in zip(C, gen.rand_point(rng, 0.4, 2.5))]
+        B = cancel() if which in ("B", "AB") else [c + x for c, x in zip(C, gen.rand_point(rng, 0.4, 2.5))]
+        cases.append({"id": "d%d_cancel%s_%d" % (order, which, k), "extra": {"order": order, "geom": "cancelling-components-" + which},
+                      "shells": [gen.rand_shell(rng, LA, A), gen.rand_shell(rng, LB, B)],
+                      "ecps": [gen.rand_ecp(rng, rng.randint(0, 2), C, nper=(1, 1))]})
     return cases
 
 
